@@ -228,7 +228,7 @@ fn random_string(rng: &mut Rng, maxlen: usize) -> String {
 // ------------------------------------------------------------------ part B
 
 const VAR_NAMES: [&str; 6] = ["v1", "v2", "v3", "V_4", "_v5", "IFS"];
-const ODD_NAMES: [&str; 12] = ["a b", "-n", "x*", "é", "a.b", "q'q", "~t", "#h", "-a b", "-x*", "", "-"];
+const ODD_NAMES: [&str; 17] = ["a b", "-n", "x*", "é", "a.b", "q'q", "~t", "#h", "-a b", "-x*", "", "-", "\u{65e5}\u{672c}", "a\u{e9}b", "\u{3000}x", "--", "+x"];
 const ALIAS_NAMES: [&str; 9] = ["al1", "al2", "b*c", "-x", "a.b", "é1", "x y", "q'q", "!z"];
 const FUNC_NAMES: [&str; 8] = ["f1", "f2", "a.b", "-f", "x*", "é", "f 3", "q\"q"];
 const OPTIONS: [&str; 11] = ["allexport", "noclobber", "noglob", "hashondefinition", "ignoreeof", "nolog", "notify", "pipefail", "nounset", "vi", "posixlycorrect"];
@@ -354,9 +354,11 @@ fn gen_state(rng: &mut Rng) -> State {
             }
             10 | 11 => {
                 let cond = *rng.pick(&CONDS);
-                let action = match rng.below(5) {
+                let action = match rng.below(6) {
                     0 => String::new(),
                     1 => "-".to_string(),
+                    // actions that look like options or like the option terminator
+                    2 => rng.pick(&["--", "-p", "--x", "-- --", "-", "+", "--print"]).to_string(),
                     _ => gen_value(rng),
                 };
                 if action == "-" {
